@@ -767,3 +767,37 @@ func specReadAt(ins []byte, w []int, i int) int {
 	}
 	return 0
 }
+
+// ---------------------------------------------------------------------------
+// Symbol tables (C13)
+
+// rootOf: ghost function: the root of a symbol table's parent chain; its
+// defining equations are rootOfDef (parent links are never reassigned).
+func rootOf(st *SymbolTable) *SymbolTable {
+	return verifrt.Ghost1[*SymbolTable, *SymbolTable]("rootOf", st)
+}
+
+func rootOfDef() bool {
+	return verifrt.Forall(func(t *SymbolTable) bool {
+		return t == nil || ((t.parent != nil || rootOf(t) == t) &&
+			(t.parent == nil || rootOf(t) == rootOf(t.parent)) &&
+			rootOf(t) != nil && rootOf(t).parent == nil)
+	})
+}
+
+// specDisabled: name n is disabled in root table r.
+func specDisabled(r *SymbolTable, n string) bool {
+	_, ok := r.disabledBuiltins[n]
+	return ok
+}
+
+// symtabInv: in every symbol table, stored symbols are non-nil and a cached
+// builtin symbol exists only in a root table for a name that is not disabled.
+func symtabInv() bool {
+	return verifrt.Forall(func(t *SymbolTable) bool {
+		return t == nil || verifrt.Forall(func(n string) bool {
+			s, ok := t.store[n]
+			return !ok || (s != nil && (s.Scope != ScopeBuiltin || (t.parent == nil && !specDisabled(t, n))))
+		})
+	})
+}
